@@ -28,8 +28,9 @@ class ParserLogger:
     are only done when needed.
     """
 
-    start_range_sequence = "\u8268"
-    end_range_sequence = "\u8269"
+    # Internal markers: Unicode noncharacters, which cannot be document text.
+    start_range_sequence = "\ufdd0"
+    end_range_sequence = "\ufdd1"
     blah_sequence = "\u00fe"
 
     __global_count = 0
